@@ -418,7 +418,8 @@ func (jenny RawTypes) disjunctionFromJSON(context languages.Context, typeDef ast
 		}
 
 		objectRef := disjunction.DiscriminatorMapping[discriminator]
-		decodingMap += fmt.Sprintf(`"%s": %s, `, discriminator, objectRef)
+		// the discriminator value is an arbitrary string: it is written as a Python literal, escapes included
+		decodingMap += fmt.Sprintf(`%s: %s, `, formatValue(discriminator), objectRef)
 		branchTypes = append(branchTypes, fmt.Sprintf("%s.Type[%s]", typingPkg, objectRef))
 	}
 
